@@ -1801,4 +1801,124 @@ theorem disregistryCall_rigid (atol rtol : K) (ha : 0 ≤ atol) (hr : 0 ≤ rtol
     rw [hdi i hi']
     exact hB i hi' y hy hc
 
+/-! ### `stale_reads`, exactly: what a read returns while inputs were changed without `solve_G` -/
+section sobj3
+variable (mag : V3 K → K) (big : K)
+
+/-- the cache (the Nye tensor aside) holds the values of the inputs `a` — those at the last `solve_G`, which need not be the
+    current ones — and `G` is among the cached quantities. -/
+def FrozenAt (a : SIn K) (o : SObj K) : Prop :=
+  (∃ g, o.cache .G = some g) ∧ ∀ p v, p ≠ .nye → o.cache p = some v → a.val mag big p = some v
+
+theorem derived_frozen (f : Payload K → Payload K) (p : SProp) (hp : p ≠ .nye) (a : SIn K) (o : SObj K) (par : Option (Payload K))
+    (hf : FrozenAt mag big a o) (hpar : par = none ∨ ∃ q, q ≠ .nye ∧ a.val mag big q = par)
+    (hval : a.val mag big p = par.map f) (hsome : par.isSome) :
+    FrozenAt mag big a (derived f p (o, par)).1 ∧ (derived f p (o, par)).1.inp = o.inp ∧
+      (derived f p (o, par)).2 = a.val mag big p := by
+  unfold derived
+  cases par with
+  | none => simp at hsome
+  | some v =>
+    have hw : a.val mag big p = some (f v) := by rw [hval]; rfl
+    show FrozenAt mag big a ⟨o.inp, setCache o.cache p (f v)⟩ ∧ o.inp = o.inp ∧ some (f v) = a.val mag big p
+    refine ⟨⟨?_, ?_⟩, rfl, hw.symm⟩
+    · obtain ⟨g, hg⟩ := hf.1
+      by_cases h : SProp.G = p
+      · exact ⟨f v, by simp [setCache, h]⟩
+      · exact ⟨g, by simp [setCache, h, hg]⟩
+    · intro q w hq hc
+      simp only [setCache] at hc
+      by_cases h : q = p
+      · subst h; simp at hc; subst hc; exact hw
+      · simp [h] at hc; exact hf.2 q w hq hc
+
+
+/-- **stale_read_frozen** (the `stale_reads` behaviour, exactly): while `G` stays cached, a read of `G`, strain, rotation, an
+    invariant or the angular velocity returns the value that follows from the inputs `a` the cache was filled from — the state
+    at the last `solve_G` — WHATEVER the current inputs of the object are (positions, cell, p vectors, `theta_max` changed in
+    between); the read changes no input and keeps the cache frozen at `a`. -/
+theorem SObj.stale_read_frozen (a : SIn K) (o : SObj K) (hf : FrozenAt mag big a o) (p : SProp) (hp : p ≠ .nye) :
+    FrozenAt mag big a (o.read mag big p).1 ∧ (o.read mag big p).1.inp = o.inp ∧
+      (o.read mag big p).2 = a.val mag big p := by
+  obtain ⟨g, hg⟩ := hf.1
+  have hG : a.val mag big .G = some g := hf.2 _ _ (by decide) hg
+  have hGv : a.valG mag big = some g := hG
+  have getG : o.getG mag big = (o, some g) := by simp [SObj.getG, hg]
+  have hS : FrozenAt mag big a (o.getStrain mag big).1 ∧ (o.getStrain mag big).1.inp = o.inp ∧
+      (o.getStrain mag big).2 = a.val mag big .strain ∧ (o.getStrain mag big).2.isSome := by
+    unfold SObj.getStrain
+    cases hc : o.cache .strain with
+    | some v => exact ⟨hf, rfl, (hf.2 _ _ (by decide) hc).symm, rfl⟩
+    | none =>
+      simp only [getG]
+      obtain ⟨h1, h2, h3⟩ := derived_frozen mag big fStrain .strain (by decide) a o (some g) hf (Or.inr ⟨.G, by decide, hG⟩)
+        (by simp [SIn.val, SIn.valStrain, hGv]) rfl
+      exact ⟨h1, h2, h3, by simp [derived]⟩
+  have hR : FrozenAt mag big a (o.getRotation mag big).1 ∧ (o.getRotation mag big).1.inp = o.inp ∧
+      (o.getRotation mag big).2 = a.val mag big .rotation ∧ (o.getRotation mag big).2.isSome := by
+    unfold SObj.getRotation
+    cases hc : o.cache .rotation with
+    | some v => exact ⟨hf, rfl, (hf.2 _ _ (by decide) hc).symm, rfl⟩
+    | none =>
+      simp only [getG]
+      obtain ⟨h1, h2, h3⟩ := derived_frozen mag big fRotation .rotation (by decide) a o (some g) hf (Or.inr ⟨.G, by decide, hG⟩)
+        (by simp [SIn.val, SIn.valRotation, hGv]) rfl
+      exact ⟨h1, h2, h3, by simp [derived]⟩
+  have step : ∀ (f : Payload K → Payload K) (q : SProp) (hq : q ≠ .nye) (par : SObj K × Option (Payload K)) (pq : SProp),
+      pq ≠ .nye → FrozenAt mag big a par.1 → par.1.inp = o.inp → par.2 = a.val mag big pq → par.2.isSome →
+      a.val mag big q = (a.val mag big pq).map f →
+      FrozenAt mag big a (derived f q par).1 ∧ (derived f q par).1.inp = o.inp ∧ (derived f q par).2 = a.val mag big q := by
+    intro f q hq par pq hpq h1 h2 h3 h4 h5
+    obtain ⟨o', v'⟩ := par
+    simp only at h1 h2 h3 h4
+    obtain ⟨r1, r2, r3⟩ := derived_frozen mag big f q hq a o' v' h1 (Or.inr ⟨pq, hpq, h3.symm⟩) (by rw [h5, h3]) h4
+    exact ⟨r1, r2.trans h2, r3⟩
+  cases p with
+  | nye => exact absurd rfl hp
+  | G => rw [show o.read mag big .G = o.getG mag big from rfl, getG]; exact ⟨hf, rfl, hG.symm⟩
+  | strain => exact ⟨hS.1, hS.2.1, hS.2.2.1⟩
+  | rotation => exact ⟨hR.1, hR.2.1, hR.2.2.1⟩
+  | inv1 =>
+    simp only [SObj.read]
+    cases hc : o.cache .inv1 with
+    | some v => exact ⟨hf, rfl, (hf.2 _ _ (by decide) hc).symm⟩
+    | none => exact step fInv1 .inv1 (by decide) _ .strain (by decide) hS.1 hS.2.1 hS.2.2.1 hS.2.2.2 rfl
+  | inv2 =>
+    simp only [SObj.read]
+    cases hc : o.cache .inv2 with
+    | some v => exact ⟨hf, rfl, (hf.2 _ _ (by decide) hc).symm⟩
+    | none => exact step fInv2 .inv2 (by decide) _ .strain (by decide) hS.1 hS.2.1 hS.2.2.1 hS.2.2.2 rfl
+  | inv3 =>
+    simp only [SObj.read]
+    cases hc : o.cache .inv3 with
+    | some v => exact ⟨hf, rfl, (hf.2 _ _ (by decide) hc).symm⟩
+    | none => exact step fInv3 .inv3 (by decide) _ .strain (by decide) hS.1 hS.2.1 hS.2.2.1 hS.2.2.2 rfl
+  | angvel2 =>
+    simp only [SObj.read]
+    cases hc : o.cache .angvel2 with
+    | some v => exact ⟨hf, rfl, (hf.2 _ _ (by decide) hc).symm⟩
+    | none => exact step fAngvel2 .angvel2 (by decide) _ .rotation (by decide) hR.1 hR.2.1 hR.2.2.1 hR.2.2.2 rfl
+
+
+/-- after a successful `solve_G` the cache is frozen at the inputs of that moment, whatever is done to the inputs afterwards
+    (`inp'`: positions / cell edited in place, `set_p_vectors`, `theta_max = v` — none of them touches the cache). -/
+theorem SObj.frozen_of_solve (o : SObj K) (th : Option (K × K)) (h : (o.solve mag big th).2 = true) (inp' : SIn K) :
+    FrozenAt mag big (o.solve mag big th).1.inp ⟨inp', (o.solve mag big th).1.cache⟩ := by
+  refine ⟨?_, fun p v _ hc => SObj.solve_coherent mag big o th h p v hc⟩
+  unfold SObj.solve at h ⊢
+  cases hp : o.inp.pvec with
+  | none => simp [hp] at h
+  | some pv => simp [setCache]
+
+end sobj3
+
+/-- non-vacuity: the four-atom cluster of `apiIn`, solved, then its positions edited in place (atom 1 moved): the cache is
+    frozen at the inputs of the solve, a read of `strain` returns the value of THOSE inputs, not of the current ones. -/
+example :
+    let o := ((SObj.fresh apiIn).solve apiMag 10000000000000000 none).1
+    let o' := o.setPos (fun i => if i = 1 then ⟨3/2, 1/4, 0⟩ else apiIn.pos i)
+    ((o'.read apiMag 10000000000000000 .strain).2 == apiIn.val apiMag 10000000000000000 .strain) = true ∧
+    ((o'.read apiMag 10000000000000000 .strain).2 == o'.inp.val apiMag 10000000000000000 .strain) = false := by
+  decide +kernel
+
 end Atomman.C17
